@@ -320,7 +320,9 @@ Fixpoint dc_roots (adjf : nat -> list nat) (n : nat) (vs : list nat) (st : dcst)
       else dc_roots adjf n vs' st
   end.
 
-(** [DirectedCycle().Cycle()] *)
+(** [DirectedCycle().Cycle()]; reading the result is a projection: since fix 73bbe49 every call
+    returns the same cycle (before, the first call drained the stack and later calls returned
+    an empty path with ok = true) *)
 Definition directed_cycle (g : graph) : res (option (list nat)) :=
   let n := g_n g in
   match dc_roots (adjv g) n (seq 0 n)
